@@ -129,6 +129,14 @@ def run_parallel(exe, common_args, total, nproc=16, timeout=600, env_extra=None,
 
     with ThreadPoolExecutor(max_workers=nproc) as ex:
         results = list(ex.map(one, jobs))
+    # a watchdog expiry is wall-clock, hence load dependent: re-run those chunks alone, one at a
+    # time, with 4x the time before the hang is believed
+    slow = [i for i, r in enumerate(results) if r[1] == "timeout"]
+    if slow:
+        out.stats["watchdog_reruns"] = len(slow)
+        timeout = timeout * 4
+        for i in slow:
+            results[i] = one(jobs[i])
     for cmd, rc, so, se in results:
         out.procs += 1
         cl = " ".join(cmd)
